@@ -4,8 +4,25 @@ from vf.coqterm import Z, N, B, S, L, T, C, Rec, Nat
 ID = "C08"
 COQ_TARGETS = ["props/C08.vo", "model/CBCheck.vo"]
 THEOREMS = [
+    ("EG.props.C08", "cb_count_window_refines"),
+    ("EG.props.C08", "cb_time_window_refines"),
+    ("EG.props.C08", "cb_refines_spec"),
+    ("EG.props.C08", "C08_reachable_well_formed"),
     ("EG.props.C08", "C08_closed_passes"),
+    ("EG.props.C08", "C08_opens_at_threshold"),
+    ("EG.props.C08", "C08_open_short_circuits_until_wait"),
+    ("EG.props.C08", "C08_wait_elapsed_enters_half_open"),
+    ("EG.props.C08", "C08_half_open_admits_first_permitted"),
+    ("EG.props.C08", "C08_trials_decide"),
+    ("EG.props.C08", "C08_stale_result_no_effect"),
     ("EG.props.C08", "C08_stale_results_ignored"),
+    ("EG.props.C08", "C08_id_tracks_transitions"),
+    ("EG.props.C08", "C08_max_wait_reopens"),
+    ("EG.props.C08", "C08_checker_accepts_spec"),
+    ("EG.props.C08", "C08_checker_accepts_model"),
+    ("EG.props.C08", "C08_wrapper_one_record_per_call"),
+    ("EG.props.C08", "C08_short_circuit_is_503"),
+    ("EG.props.C08", "C08_nonvacuous"),
 ]
 HARNESSES = [
     dict(name="cb", pkg="pkg/util/circuitbreaker", files=["harness/circuitbreaker/zz_verif_c08_test.go"],
@@ -35,8 +52,20 @@ ASSUMPTIONS = ["non-decreasing clock", "window size and permitted calls < 2^25 (
 
 MANIFEST = dict(
     design_ref="DESIGN.md section 6 C08",
-    level_text="",
-    level_note="",
+    level_text=("Theorems for ALL policies and ALL histories with a non-decreasing clock: the count-based ring buffer and the "
+                "time-based bucket ring (evictions included) equal the abstract window views; the concrete breaker (uint32/uint8 rate "
+                "arithmetic, stateID) refines the contract automaton step for step; on the automaton: CLOSED passes, OPEN iff "
+                ">= minimum results in the window and a rate >= threshold (exact floor boundary), OPEN short-circuits until the wait "
+                "elapsed, exactly the first `permitted` half-open acquisitions are admitted, trials decide, stale ids are ignored "
+                "(ids change with every transition), maxWait reopens; wrapper records exactly once per admitted call (panic path "
+                "included); short-circuit = 503/shortCircuited/no server. The trace checker used as `prop` is proved to accept "
+                "every model trace. Model tied to pkg/util/circuitbreaker, pkg/resilience and pkg/filters/proxy on every run by "
+                "differential correspondence under a virtual clock."),
+    level_note=("Trusted: Coq kernel + vm_compute; hand-written model validated only on sampled histories; each public operation is "
+                "one atomic step with ONE clock reading (lock held for the whole body; time passing inside an operation is not "
+                "modelled); sizes < 2^25 and, for the time-based window, < 2^25 operations (uint32 overflow of failure*100 beyond "
+                "that is in the concrete model but outside the theorems); clock going backwards excluded by hypothesis; listener "
+                "goroutines, SetState/Disabled/ForceOpen not modelled; concurrency only through the atomic-step argument."),
     technique="Coq proof (refinement of ring buffers to a log automaton, invariant induction over op histories) + model/implementation correspondence by vm_compute",
 )
 
